@@ -274,6 +274,9 @@ def run(ctx):
             continue
         if not orc.knows(ub):
             continue
+        if orc.dynamic_range(ua) + orc.dynamic_range(ub) > 120:
+            ctx.count("skipped_operands_may_leave_float_range")
+            continue
         y = mag(zero_ok=(opname != "truediv"))
         if opname in ("add", "sub") and ub is not ua:
             # keep the two terms comparable in size
@@ -324,9 +327,14 @@ def run(ctx):
             q2 = express(bm, f2)
             if not (1e-30 < abs(q2.magnitude) < 1e30) and not (q2.magnitude == 0 and y == 0):
                 continue
+            if orc.dynamic_range(q2.unit) + orc.dynamic_range(ua) + orc.dynamic_range(ub) > 120:
+                ctx.count("skipped_reexpression_may_leave_float_range")
+                continue
             lo_u, hi_u, _ = orc.unit_size(q2.unit)
             lo_b, hi_b, _ = orc.unit_size(ub)
             s2 = core.sf(Fraction(sy if not isinstance(sy, Decimal) else core.sf(sy)) * ((lo_b + hi_b) / 2) / ((lo_u + hi_u) / 2)) if sy else 0
+            if s2 and not (1e-60 < abs(s2) < 1e60):
+                continue
             B2 = Mt(q2, s2)
             right2 = B2 if isinstance(right, Mt) else q2
             state["case"] = {"op": opname, "side": side, "left": repr(left), "right": repr(right2), "reexpressed_from": repr(right)}
